@@ -11,7 +11,7 @@
          current code, i.e. the refutation of the full-strength statement.
    The runtime clause for the compiled code is decided by observation in the correspondence run (checks/C02.py). *)
 From CSL Require Import Base.Prelude Base.Hex Cbor.Head Cbor.Item Codec.Schema Codec.SchemaProofs Ledger.Schemas Ledger.SchemasProofs
-  Total.Partial Total.Decoders Total.SchemaTotal Total.TotalProofs Total.ItemLink Total.ReserialiseFull.
+  Total.Partial Total.Decoders Total.SchemaTotal Total.TotalProofs Total.ItemLink Total.ReserialiseFull Total.Lax Total.LaxProofs.
 
 Local Notation never_panics r := (r <> Panic /\ r <> OutOfFuel).
 
@@ -56,6 +56,17 @@ Proof.
   exact (ledger_type_wf d s Hin).
 Qed.
 Print Assumptions C02_reserialise_after_decode_wf.
+
+(* ---- the lenient acceptor (Total/Lax.v) used for the error predictions of the correspondence run: it accepts whatever
+   the strict decoder accepts, leaving the same rest (lower half of the sandwich  dec => library => acc) ---- *)
+Theorem C02_lenient_covers_strict : forall s bs v rest, wfs s = true -> dec s bs = Ok (v, rest) -> acc s bs = Some rest.
+Proof. intros s bs v rest Hs H. exact (dec_accepts_acc_accepts s bs v rest Hs H). Qed.
+Print Assumptions C02_lenient_covers_strict.
+
+(* the strict decoder never returns more bytes than it was given (every schema, every input) *)
+Theorem C02_decoder_consumes : forall s bs v rest, dec s bs = Ok (v, rest) -> (length rest <= length bs)%nat.
+Proof. exact dec_shorter. Qed.
+Print Assumptions C02_decoder_consumes.
 
 (* ---- hand-written decoders (repaired code), allocator that never refuses ---- *)
 Theorem C02_address_total : forall ignore_leftover data,
